@@ -582,3 +582,9 @@ PROPERTIES["C18"] = dict(
 
 PROPERTIES["C13"]["runs"] += [dict(pkg="accumulation", files=PIPE_FILES, entry="Harness_P13M", args=dict(sample_every=1, max_samples=4))]
 PROPERTIES["C13"]["bounds"]["quick"] += "; P13M: 4 programs (two plain functions / two same-named methods / two init functions / one function twice) whose findings have no positioned nil source"
+
+PROPERTIES["C20"]["runs"] += [
+    dict(pkg="assertion/function/functioncontracts", files=["functioncontracts/zz_verif_c20.go"], entry="Harness_C20_K1", name="_depth2_core",
+         quick=dict(params=dict(DEPTH=2, CONDS=3, RESULTS=2, STMTKINDS=2)), thorough=dict(params=dict(DEPTH=2, CONDS=3, RESULTS=2, STMTKINDS=2)), args=dict(sample_every=37)),
+]
+PROPERTIES["C20"]["bounds"]["quick"] += "; K1 also on the 590 depth-2 functions built from return and if/else only (3 condition forms, 2 result forms) - the smallest family in which the empty-table-set defect shows"
